@@ -2,6 +2,9 @@
 # seedeval.sh <patch> <check-dir> [tier]: apply a change to a scratch worktree of /repo HEAD and run one check against it.
 patch="$1"; chk="$2"; tier="${3:-quick}"
 id=$(basename "$patch" .patch)
+# seeded/<id>/patch.diff: name the scratch worktree after the seed and the check, so concurrent evaluations do not collide
+case "$id" in patch.diff|patch.rebased*) id="$(basename "$(dirname "$patch")")";; esac
+id="$id-$chk-$$"
 wt=/tmp/ev-$id; out=/tmp/evout-$id
 rm -rf "$out"; git -C /repo worktree remove --force "$wt" 2>/dev/null; rm -rf "$wt"
 git -C /repo worktree add --detach "$wt" HEAD -q || exit 3
